@@ -71,7 +71,10 @@ TRUSTED = ["harness/props/c08.py Fraction oracle for the true landscape (cross-c
 # theorems that carry a clause of the property (helpers, concrete instances and definitional restatements excluded)
 CORE_THEOREMS = ["kth_lipschitz", "snap_error", "tent_lipschitz", "ramps_are_snapped_tents", "approx_shape", "approx_rows",
                  "approx_half_step", "approx_half_step_default", "transformer_flat_entry", "fit_transform_eq_transform",
-                 "vectorize_samples_evalPL", "death_vector_sorted"]
+                 "vectorize_samples_evalPL", "death_vector_sorted",
+                 # composed with the C03 model (Props/C08Model.lean): vectorize(PersLandscapeExact(...)) samples the landscape
+                 "model_vectorize_of_exact_not_fired", "model_vectorize_of_exact_returns", "model_vectorize_of_exact_is_landscape",
+                 "model_vectorize_of_exact_is_landscape_of_distinct_deaths", "npInterp_linearInterp"]
 KNOWN_KEY = "repeated-bar-shortcut"
 KNOWN_SITE = "site=persim/landscapes/exact.py:repeated-bar-shortcut"
 KNOWN_CASE = {"op": "vectorize_true", "bars": [[1.0, 5.0], [1.0, 5.0], [3.0, 6.0]], "start": 1.0, "stop": 6.0, "n": 11}
@@ -1031,7 +1034,7 @@ def stream_death(ctx, corr_failures):
 
 # source translator (DESIGN.md 3.2): part of the model is regenerated from the source text on every run
 TRUSTED = list(TRUSTED) + [py2lean.trusted_note("approx")]
-PROP_FILES = ["PersimVerif/Props/C08.lean"] + py2lean.prop_files("approx")
+PROP_FILES = ["PersimVerif/Props/C08.lean", "PersimVerif/Props/C08Model.lean"] + py2lean.prop_files("approx")
 
 
 def large_case_check(c):
@@ -1092,7 +1095,7 @@ def run(ctx):
     corr_failures = []
     cov = common.LineCov(["persim/landscapes/approximate.py", "persim/landscapes/auxiliary.py", "persim/landscapes/tools.py",
                           "persim/landscapes/transformer.py"])
-    corethm.record(ctx, CORE_THEOREMS, ["PersimVerif/Props/C08.lean"])
+    corethm.record(ctx, CORE_THEOREMS, ["PersimVerif/Props/C08.lean", "PersimVerif/Props/C08Model.lean"])
     for stream in (stream_approx, stream_transform, stream_vectorize, stream_death):
         stream(ctx, corr_failures)
         if len(ctx.violations) > 5:
@@ -1191,7 +1194,7 @@ def replay(ctx, rep):
 
 
 MANIFEST = {
-    "text": "Proof: 21 Lean theorems, of which 12 core (carrying a clause of the property; the rest are helpers, error paths, concrete "
+    "text": "Proof: 21 Lean theorems in Props/C08.lean plus 12 in Props/C08Model.lean (C08 composed with C03: the model of vectorize(PersLandscapeExact(dgms, hom_deg), start, stop, num_steps) returns exactly the landscape at every node and depth whenever the births or the deaths are pairwise distinct - model_vectorize_of_exact_is_landscape - with np.interp as a LinearInterp contract), of which 17 core (carrying a clause of the property; the rest are helpers, error paths, concrete "
             "instances, the tightness witness, the regression witness `old_fit_inf_counterexample` and `transformer_is_approx`, which "
             "only restates the definition of the model of `transform` and is tied to the real transformer by the correspondence) "
             "about the model of PersLandscapeApprox / ndsnap_regular / vectorize / PersistenceLandscaper / death_vector over every "
